@@ -338,6 +338,20 @@ def Sel.filter (s : Sel) : Option Expr → Sel
   | none => s
   | some c => { s with clause := .and s.clause c }
 
+/-- the chainable `SelectResults` methods -/
+inductive SelOp where
+  | orderBy (o : OrderBy)
+  | rev
+  | dist
+  | filter (c : Option Expr)
+deriving Repr
+
+def Sel.apply (sch : Schema) (s : Sel) : SelOp → Sel
+  | .orderBy o => s.orderBy sch o
+  | .rev => s.rev
+  | .dist => s.dist
+  | .filter c => s.filter c
+
 inductive Items where
   | columns
   | count (c : CountItem)
